@@ -108,7 +108,7 @@ var reg = vk.Registry{"relay": func(raw json.RawMessage) *vk.Violation {
 
 func TestReplay(t *testing.T) { vk.RunReplay(t, reg) }
 
-var mutations = []string{"nul-junk", "dup-tags", "big-opt", "trailing", "len-shift", "count-shift", "length-word", "substitute", "truncate-tail"}
+var mutations = []string{"nul-junk", "dup-tags", "big-opt", "trailing", "len-shift", "count-shift", "length-word", "substitute", "truncate-tail", "long-cstr"}
 
 // mutate derives a (possibly) decodable non-canonical image from a reference image.
 func mutate(t *rapid.T, b *gen.Binding, v *ref.Vals, kind string) []byte {
@@ -173,6 +173,31 @@ func mutate(t *rapid.T, b *gen.Binding, v *ref.Vals, kind string) []byte {
 			ts = append(ts, ref.Triplet{Tag: 0x7777, Val: gen.BodyBytes(t, l, "bigval")})
 		}
 		return fix(append(append([]byte{}, img[:info.MandatoryEnd]...), ref.EncodeTriplets(ts)...))
+	case "long-cstr":
+		// a C-octet string longer than the specification's maximum for the field: decoders read up to the NUL
+		// and accept it (peers do send over-long message ids and addresses)
+		var cs []ref.Field
+		for _, f := range s.Fields {
+			if f.Kind == ref.CStr {
+				cs = append(cs, f)
+			}
+		}
+		if len(cs) == 0 {
+			return img
+		}
+		f := cs[rapid.IntRange(0, len(cs)-1).Draw(t, "cstrfield")]
+		n := rapid.SampledFrom([]int{f.W, f.W + 1, 64, 65, 127, 128, 129, 255, 256, 300}).Draw(t, "cstrlen")
+		long := make([]byte, n)
+		for i := range long {
+			long[i] = "0123456789abcdefXYZ+"[(i*7+n)%20]
+		}
+		v2 := *v
+		v2.F = map[string]any{}
+		for k, x := range v.F {
+			v2.F[k] = x
+		}
+		v2.F[f.Name] = long
+		return ref.Encode(s, &v2)
 	case "trailing":
 		return fix(append(append([]byte{}, img...), rapid.SliceOfN(rapid.Byte(), 1, 16).Draw(t, "garbage")...))
 	case "len-shift", "count-shift":
